@@ -1,20 +1,43 @@
 (** C03 — correspondence cases.  One case = one multi-treap history over one of the three item kinds
     (0: lazy add + sum; 1: assign-or-add + sum; 2: lazy add + positional hash, an order-sensitive aggregate), the
     priorities that node creation consumed, and every output the implementation produced.
-    [model_check]: the outputs are those of the tree model.  [spec_check]: the outputs are those of the
-    list-of-lists specification ([srun], which never mentions a tree). *)
+    [model_check]: the outputs are those of the tree model; an item returned by remove_at is compared as a whole
+    (every field).  [spec_check]: the outputs are those of the list-of-lists specification ([srun], which never
+    mentions a tree); an item returned by remove_at must be a one-element subtree root for the removed element
+    ([fresh_ok]). *)
 From Coq Require Import ZArith List Bool.
 From RlibV Require Import Common.Batch C03.Model.
 Import ListNotations.
 Open Scope Z_scope.
 
-(** concrete operations (payloads are integers; [CSplitBy i c] uses the predicate [elem < c]) *)
+(** concrete operations (payloads are integers; [CSplitBy i c] uses the predicate [elem < c]).
+    [CMove i k j k2]: remove_at(k) on treap i, then insert_at(k2, <the item object that was returned>) on treap j. *)
 Inductive cop :=
 | CNew | CFrom (v : Z) | CMerge (i j : nat) | CSplitAt (i : nat) (k : Z) | CSplitBy (i : nat) (c : Z)
 | CInsert (i : nat) (k v : Z) | CRemove (i : nat) (k : Z) | CMod (i : nat) (m : amod)
-| CFirst (i : nat) | CLast (i : nat) | CCollect (i : nat) | CSize (i : nat) | CAgg (i : nat).
+| CFirst (i : nat) | CLast (i : nat) | CCollect (i : nat) | CSize (i : nat) | CAgg (i : nat)
+| CMove (i : nat) (k : Z) (j : nat) (k2 : Z).
 
-Definition out := @output Z Z.
+(** a COMPLETE item as the executor prints it (the same six numbers as for every node of the raw shapes):
+    element, aggregate, size, and
+      kind 0:  md 0 0        kind 1:  add, then  1 c  for set = Some c /  0 0  for set = None        kind 2:  md pw rp
+    Every field of the three item records is there: the encodings are injective. *)
+Record ritem := RItem { r_x : Z; r_agg : Z; r_sz : Z; r_t1 : Z; r_t2 : Z; r_t3 : Z }.
+Definition ri0 (x : isz) : ritem := RItem (ix x) (ism x) (isize x) (imd x) 0 0.
+Definition ri1 (x : iaa) : ritem :=
+  match aset x with
+  | Some c => RItem (ax x) (asm x) (asize x) (aadd x) 1 c
+  | None => RItem (ax x) (asm x) (asize x) (aadd x) 0 0
+  end.
+Definition ri2 (x : ihs) : ritem := RItem (hx x) (hh x) (hsz x) (hmd x) (hpw x) (hrp x).
+Definition ritem_eqb (a b : ritem) : bool :=
+  (r_x a =? r_x b) && (r_agg a =? r_agg b) && (r_sz a =? r_sz b)
+  && (r_t1 a =? r_t1 b) && (r_t2 a =? r_t2 b) && (r_t3 a =? r_t3 b).
+
+(** what the implementation showed (and what the tree model shows): removed items are complete items *)
+Definition out := @output ritem Z Z.
+(** what the list-of-lists specification shows: of a removed item, its element *)
+Definition sout := @output Z Z Z.
 
 Definition conv {T M : Type} (mk : Z -> T) (md : amod -> M) (o : cop) : @op T M Z :=
   match o with
@@ -22,6 +45,7 @@ Definition conv {T M : Type} (mk : Z -> T) (md : amod -> M) (o : cop) : @op T M 
   | CSplitBy i c => SplitBy i (fun e => e <? c)
   | CInsert i k v => InsertAt i k (mk v) | CRemove i k => RemoveAt i k | CMod i m => ModifyRoot i (md m)
   | CFirst i => First i | CLast i => Last i | CCollect i => Collect i | CSize i => Size i | CAgg i => RootAgg i
+  | CMove i k j k2 => Move i k j k2
   end.
 
 (** kind 0 treats every modification as an addition (the harness item does the same) *)
@@ -37,17 +61,14 @@ Definition srun0 (ops : list cop) := srun ix Z.add zsum [] (map to_op0 ops).
 Definition srun1 (ops : list cop) := srun ax amod_act zsum [] (map to_op1 ops).
 
 (** kind 2: modifications are additions (as for kind 0); the aggregate of the model and of the specification
-    is the triple (hash, hB^n, hash of ones); the executor prints the hash, so outputs are projected on it *)
+    is the triple (hash, hB^n, hash of ones); for a root aggregate the executor prints the hash, so those outputs are
+    projected on it (a removed item is printed with all three) *)
 Definition to_op2 := conv ihs_mk md0.
 Definition run2 (ps : list Z) (ops : list cop) :=
   run ihs_update ihs_push hsz ihs_modify hx ihs_agg [] ps (map to_op2 ops).
 Definition srun2 (ops : list cop) := srun hx Z.add hashagg [] (map to_op2 ops).
-Definition proj_out (o : @output Z (Z * Z * Z)) : out :=
-  match o with
-  | OInvalid => OInvalid | OUnit => OUnit | OPanic => OPanic | OElem e => OElem e | OList l => OList l
-  | OSize n => OSize n | ORemoved v => ORemoved v
-  | OAgg a => OAgg (option_map (fun t => fst (fst t)) a)
-  end.
+Definition fst3 (t : Z * Z * Z) : Z := fst (fst t).
+Definition idZ (v : Z) : Z := v.
 
 Definition out_eqb (a b : out) : bool :=
   match a, b with
@@ -56,7 +77,7 @@ Definition out_eqb (a b : out) : bool :=
   | OList x, OList y => leqb Z.eqb x y
   | OSize x, OSize y => Z.eqb x y
   | OAgg x, OAgg y => oeqb Z.eqb x y
-  | ORemoved x, ORemoved y => Z.eqb x y
+  | ORemoved x, ORemoved y => ritem_eqb x y
   | _, _ => false
   end.
 
@@ -65,15 +86,50 @@ Inductive case := Case (kind : nat) (ops : list cop) (prios : list Z) (obs : opt
 
 Definition model_outputs (kind : nat) (ps : list Z) (ops : list cop) : list out :=
   match kind with
-  | O => snd (run0 ps ops)
-  | S O => snd (run1 ps ops)
-  | _ => map proj_out (snd (run2 ps ops))
+  | O => map (out_map ri0 idZ) (snd (run0 ps ops))
+  | S O => map (out_map ri1 idZ) (snd (run1 ps ops))
+  | _ => map (out_map ri2 fst3) (snd (run2 ps ops))
   end.
-Definition spec_outputs (kind : nat) (ops : list cop) : option (list out) :=
+Definition spec_outputs (kind : nat) (ops : list cop) : option (list sout) :=
   match kind with
   | O => option_map snd (srun0 ops)
   | S O => option_map snd (srun1 ops)
-  | _ => option_map (fun r => map proj_out (snd r)) (srun2 ops)
+  | _ => option_map (fun r => map (out_map idZ fst3) (snd r)) (srun2 ops)
+  end.
+
+(** The specification's requirement on the item that remove_at returned, given the element [v] that the vector
+    operation removes (independent of the tree model).  The returned item is a detached one-element subtree root:
+      - its element is [v];
+      - its size is 1;
+      - its aggregate is the aggregate of the one-element sequence [v]: the sum [v] (kinds 0, 1), resp. all three
+        components of the positional-hash aggregate of [v] (kind 2: hash, hB^1, hash of [1]);
+      - its pending tag is the identity, i.e. nothing is pending that would act on the elements attached below it
+        when it is inserted again: md = 0 (kinds 0, 2); add = 0 and set = None (kind 1).
+    (r_t2, r_t3 of kind 0 and r_t3 of kind 1 with set = None are constants of the printer, not fields.) *)
+Definition fresh_ok (kind : nat) (v : Z) (it : ritem) : bool :=
+  (r_x it =? v) && (r_sz it =? 1) &&
+  match kind with
+  | O => (r_agg it =? zsum [v]) && (r_t1 it =? 0)
+  | S O => (r_agg it =? zsum [v]) && (r_t1 it =? 0) && (r_t2 it =? 0)
+  | _ => let '(h, pw, rp) := hashagg [v] in (r_agg it =? h) && (r_t2 it =? pw) && (r_t3 it =? rp) && (r_t1 it =? 0)
+  end.
+
+(** one observed output against the output of the list-of-lists specification *)
+Definition spec_ok (kind : nat) (s : sout) (o : out) : bool :=
+  match s, o with
+  | OInvalid, OInvalid | OUnit, OUnit | OPanic, OPanic => true
+  | OElem x, OElem y => oeqb Z.eqb x y
+  | OList x, OList y => leqb Z.eqb x y
+  | OSize x, OSize y => Z.eqb x y
+  | OAgg x, OAgg y => oeqb Z.eqb x y
+  | ORemoved v, ORemoved it => fresh_ok kind v it
+  | _, _ => false
+  end.
+Fixpoint all2 {X Y} (f : X -> Y -> bool) (a : list X) (b : list Y) : bool :=
+  match a, b with
+  | [], [] => true
+  | x :: a', y :: b' => f x y && all2 f a' b'
+  | _, _ => false
   end.
 
 Definition model_check (c : case) : bool :=
@@ -84,7 +140,7 @@ Definition spec_check (c : case) : bool :=
   let '(Case kind ops ps obs) := c in
   match spec_outputs kind ops with
   | None => true   (* a split_by predicate was not prefix-monotone: outside the property *)
-  | Some so => match obs with Some o => leqb out_eqb so o | None => false end
+  | Some so => match obs with Some o => all2 (spec_ok kind) so o | None => false end
   end.
 
 Definition explain (c : case) :=
